@@ -427,3 +427,136 @@ reg(dict(
         "busy state = one gated publish handler, outstanding QoS 1 / QoS 2 (client: subscribe) sends and a streamed send in progress",
         "hang = bytes left unread by a live connection after every gate was opened (`final`)",
     ]), ["C16"])
+
+
+# =============================================================================================
+# group "alias": C17  (PktSeq.tla generator + ProtoMon.tla alias rules)
+
+ALIAS_T = [(t, a) for t in ("a", "b", "") for a in (0, 1, 2, 3) if not (t == "" and a == 0)]   # 11 templates
+
+
+def c17_decode_for(ver, role, router, warm):
+    def dec(tokens, variant):
+        cfg = dict(role=role, ver=5, gate_pub=0, max_qos=2, max_receive=16)
+        if role == "server":
+            cfg["max_topic_alias"] = 2
+        else:
+            cfg["client_topic_alias_max"] = 2
+        if router:
+            cfg["router"] = 1
+        if warm:
+            # another connection through the same server binds aliases 1 and 2 the other way round
+            cfg["warm"] = [{"t": "publish", "q": 0, "topic": "b", "alias": 1, "plen": 1},
+                           {"t": "publish", "q": 0, "topic": "a", "alias": 2, "plen": 1}]
+        cmds = [handshake(role, 5)]
+        for i, t in enumerate(tokens):
+            topic, alias = ALIAS_T[t - 1]
+            p = {"t": "publish", "q": 1 if i % 2 else 0, "id": i + 1, "topic": topic, "plen": 1}
+            if alias:
+                p["alias"] = alias
+            cmds.append({"c": "in", "p": p})
+        cmds.append({"c": "drain"})
+        return cfg, cmds
+    return dec
+
+
+def c17_configs(tier):
+    cs = []
+    L = 3 if tier == "quick" else 4
+    for role, router, warm in (("server", 0, 0), ("server", 1, 0), ("server", 0, 1), ("server", 1, 1),
+                               ("client", 0, 0), ("client", 1, 0)):
+        cs.append((f"{role[0]}_r{router}_w{warm}", PKTSEQ_CFG.format(nt=len(ALIAS_T), maxlen=L, minlen=1), "PktSeq",
+                   c17_decode_for(5, role, router, warm), [None]))
+    return cs
+
+
+reg(dict(
+    name="alias", judge="ProtoJudge", configs=c17_configs, signature=inb_signature,
+    level={}, quota=700, quota_thorough=20000,
+    rule="TLC enumerates every sequence (length <= 3 quick, <= 4 thorough) over 11 publish templates = topics "
+         "{a, b, none} x aliases {none, 1, 2, 3 (above the advertised maximum 2)}: bind, rebind to the other topic, use, "
+         "use unbound, exceed maximum; v5 server and client, with and without the topic router, and with a concurrent "
+         "connection through the same server instance that binds the same aliases to the other topics",
+    assumptions=[
+        "generator is the enumeration spec PktSeq.tla; expectation = alias rules of ProtoMon (binding map built from in tokens)",
+        "the client+router variant has no connection-control service: the protocol error is observed as connection completion",
+    ]), ["C17"])
+
+
+# =============================================================================================
+# group "disc": C15  (PktSeq.tla generator + ProtoMon.tla DISCONNECT rules)
+
+def c15_templates(role):
+    """token -> list of harness commands"""
+    pub = lambda **kw: {"c": "in", "p": dict({"t": "publish", "topic": "t", "plen": 1}, **kw)}
+    cause = lambda k: {"c": "mark", "e": "cause", "k": k}
+    t = [
+        [{"c": "close", "k": "close"}],
+        [{"c": "close", "k": "reason", "code": 0x8b}],
+        [{"c": "close", "k": "no_reason"}],
+        [{"c": "arm", "ctl": 1, "o": "own", "code": 0x8b}, {"c": "mark", "e": "app_disc"}],
+        [{"c": "arm", "o": "err"}, pub(q=1, id=7)],
+        [cause("alias"), pub(q=0, topic="", alias=2)],
+        [{"c": "in", "p": {"t": "disconnect"}}],
+        [{"c": "in", "p": {"t": "disconnect", "rc": 4, "sei": 10}}],
+        [{"c": "gate", "what": "pub", "on": 1}, pub(q=1, id=8), cause("recvmax"), pub(q=1, id=9),
+         {"c": "gate", "what": "pub", "on": 0}],
+    ]
+    if role == "server":
+        t += [
+            [{"c": "arm", "o": "disc"}, {"c": "mark", "e": "app_disc"}, {"c": "in", "p": {"t": "pingreq"}}],
+            [{"c": "arm", "o": "disc_with", "code": 0x89}, {"c": "mark", "e": "app_disc"}, {"c": "in", "p": {"t": "pingreq"}}],
+            [cause("qos"), pub(q=2, id=5)],
+            [cause("retain"), pub(q=1, id=6, retain=1)],
+            [cause("subid"), {"c": "in", "p": {"t": "subscribe", "id": 4, "subid": 3}}],
+            [cause("toolarge"), pub(q=0, plen=100)],
+        ]
+    else:
+        t += [
+            [{"c": "arm", "o": "disc_with", "code": 0x89}, {"c": "mark", "e": "app_disc"}, pub(q=0)],
+        ]
+    return t
+
+
+def c15_decode_for(role):
+    tmpl = c15_templates(role)
+
+    def dec(tokens, variant):
+        cfg = dict(role=role, ver=5, gate_pub=0, gate_proto=0, max_receive=16)
+        if role == "server":
+            cfg.update(max_qos=1, ack_retain_available=0, ack_sub_ids_available=0, max_topic_alias=2,
+                       ack_receive_max=1, ack_max_packet_size=64, max_size=64)
+            cmds = [handshake(role, 5)]
+        else:
+            cfg.update(client_receive_max=1, client_topic_alias_max=2)
+            cmds = [handshake(role, 5)]
+        for t in tokens:
+            cmds += tmpl[t - 1]
+        cmds.append({"c": "drain"})
+        return cfg, cmds
+    return dec
+
+
+def c15_configs(tier):
+    cs = []
+    for role in ("server", "client"):
+        nt = len(c15_templates(role))
+        L = 2 if tier == "quick" else 3
+        cs.append((f"{role[0]}_l{L}", PKTSEQ_CFG.format(nt=nt, maxlen=L, minlen=1), "PktSeq", c15_decode_for(role), [None]))
+        if tier == "quick":
+            cs.append((f"{role[0]}_l3", PKTSEQ_CFG.format(nt=nt, maxlen=3, minlen=3), "PktSeq", c15_decode_for(role), [None]))
+    return cs
+
+
+reg(dict(
+    name="disc", judge="ProtoJudge", configs=c15_configs, signature=inb_signature,
+    level={}, quota=500, quota_thorough=20000,
+    rule="TLC enumerates every sequence of <= 3 close initiators out of 15 (server) / 10 (client): application close / "
+         "close_with_reason / close_with_no_reason, protocol handler disconnect / disconnect_with, control service "
+         "supplying its own DISCONNECT, handler error, peer DISCONNECT with and without Session Expiry, and the "
+         "protocol violations with dedicated codes (QoS, retain, subscription identifiers, topic alias, packet too "
+         "large, receive maximum); ProtoMon judges count, position and reason code of DISCONNECT on the wire",
+    assumptions=[
+        "generator = enumeration spec PktSeq.tla; the expected reason code is computed by the monitor from the cause marker, not from the crate",
+        "keep-alive expiry (0x8D) is covered by C20",
+    ]), ["C15"])
